@@ -22,12 +22,17 @@ EXPLANATION = (
     "position only for safe-by-construction values such as the heading level), contains none of < > \" (raw text must pass "
     "escape/safe_entity/safe_url; destinations must pass safe_url; x.isdigit() guards are understood), and the reader "
     "returns to character data: the elements and attributes of the output are exactly those spelled by template "
-    "literals (C02_no_injected_markup). URL clause: the value a browser reads back from safe_url's output is the input or "
+    "literals (C02_no_injected_markup). WHOLE DOCUMENTS: for the executable model of the complete conversion to HTML "
+    "(coq/Model/Inline.v, Block.v, Doc.v, HtmlDoc.v: core configuration, and core plus the inline plugins strikethrough, mark, "
+    "insert, superscript, subscript, url; tied by control skeletons with constants, regenerated rule data and AST / HTML "
+    "correspondence runs) the induction over the token tree is carried out: for every document every token at every "
+    "depth is rendered by a call with that reading property - the children hypothesis is discharged, not assumed - and "
+    "the complete output returns the reader to character data (C02_whole_document_no_injected_markup). URL clause: the value a browser reads back from safe_url's output is the input or "
     "'#harmful-link', never a harmful scheme (C02_no_script_url, protocol lists regenerated). Safe-by-construction "
     "parameters from regexes are justified by the verified 'avoids' analysis (ruby).")
 ASSUMPTIONS = [
     "parameter kinds are the specification tools/spec/render_sigs.json; 'html' parameters are rendered children "
-    "(induction over the token tree, stated as hypothesis children_ok) - incl. block_error.text (escaped where it is built, "
+    "(the induction over the token tree is proved for the modelled configurations, and is the hypothesis children_ok for the other plugin and directive tokens) - incl. block_error.text (escaped where it is built, "
     "fix cf1c277/843dd67) and the two string-surgery sites (footnote_item, task_list_item), whose filtered children are "
     "assumed to remain fragments (covered by the oracle)",
     "that the parsers only hand 'safe' values to safe parameters (levels, indexes, aligns from fixed lists, admonition "
